@@ -149,7 +149,41 @@ def main(argv: list[str]) -> int:
     print(f"{len(ms) - bad}/{len(ms)} caught")
     if full:
         write_table(rows, tier)
+    elif os.environ.get("VERIF_SENS_MERGE") == "1":
+        merge_table(rows)
     return 0 if bad == 0 else 1
+
+
+def table_row(m, r) -> str:
+    first = ""
+    for ln in r.get("detail", "").splitlines():
+        if "violation class=" in ln:
+            first = ln.split("violation class=", 1)[1].split(" cases=", 1)[0]
+            break
+    return f"| `{m['name']}` | {', '.join(m['properties'])} | {r['status']} ({', '.join(r.get('caught_by', []))}) | `{first}` |"
+
+
+def merge_table(rows) -> None:
+    """Replace / add the rows of a partial run in the existing table (VERIF_SENS_MERGE=1), keeping the discover() order."""
+    path = os.path.join(VERIF, "SENSITIVITY.md")
+    with open(path) as f:
+        lines = f.read().splitlines()
+    existing = {}
+    head = []
+    for ln in lines:
+        if ln.startswith("| `"):
+            existing[ln.split("`")[1]] = ln
+        elif not existing and not ln.endswith(" caught."):
+            head.append(ln)
+    for m, r in rows:
+        existing[m["name"]] = table_row(m, r)
+    order = [m["name"] for m in discover()]
+    body = [existing[n] for n in order if n in existing]
+    caught = sum(1 for ln in body if "| CAUGHT (" in ln)
+    while head and not head[-1].strip():
+        head.pop()
+    with open(path, "w") as f:
+        f.write("\n".join(head + body + ["", f"{caught}/{len(body)} caught."]) + "\n")
 
 
 def write_table(rows, tier: str) -> None:
